@@ -11,6 +11,11 @@ CHECKS = {
             "Every 1-byte operand pair of every integer operation is executed against the reference (complete for that width); widths 2/3/4/8/16, mixed-width shifts/pieces and depth-3 expression trees are boundary-biased samples. Held = no disagreement on the executions listed in the evidence file.",
             "trusts harness/vmon/src/pref.rs as transcription of the P-Code manual; release profile; BOOL ops only on 0/1",
             "DESIGN.md §3 C01"),
+    "C10": ("vmon-diffexec",
+            "differential execution (translation validation by running): generated functions executed by an independent IR interpreter before/after every optimisation pass and the whole pipeline; trace + state-digest oracle",
+            "Thousands of generated functions x 16-96 random initial states are executed before and after each single pass, each pipeline step and normalize_optimize as a whole; every load/store/call/indirect jump/return event and the register+memory digest at calls/returns/dead ends must agree. Held = no trace difference on the executions listed in the evidence file; one recorded known finding (CALLOTHER return sites) is reported as KNOWN-FINDING.",
+            "trusts irx/pref as reading of the IR semantics; calls opaque with identical havoc; domain guards listed in the evidence assumptions (aligned entry stack pointer, entry block with stack masking executed once, block-local temporaries, 0/1 flags)",
+            "DESIGN.md §3 C10"),
 }
 
 NOT_YET = "monitor designed (DESIGN.md §3) but not built yet in this revision of /verif"
